@@ -13,12 +13,17 @@ ACCEPTED_FLAGS = {'hash-of-nonintegral-real': 'see C01'}
 LIMITS = {'quick': {'max_paths': 6000, 'max_s': 100}, 'thorough': {'max_paths': 60000, 'max_s': 600}}
 
 ENUM2 = {'k': 'enum', 'members': {'a': 1, 'b': 2, 'c': 5, 'z': 0}}
+ENUM3 = {'k': 'enum', 'members': {'a': 0, 'c': 2, 'z': 5, 'y': 7, 'x': 9}}     # holes inside, extras outside a small int range
 SHAPES = {'double': D, 'double-unlimited': DU, 'double-absres': DA, 'int': I, 'bool': B, 'enum': ENUM, 'scaled0.1': SC(0.1),
           'scaled3': SC(3), 'scaled2^-10': SC(2 ** -10), 'scaled1/3': SC(1 / 3), 'string': S, 'string-utf8': SU, 'string-unlimited': {'k': 'string', 'unlimited': True}, 'blob': BL,
           'array-int': {'k': 'array', 'of': I}, 'array-enum': {'k': 'array', 'of': ENUM},
           'tuple': {'k': 'tuple', 'of': [D, ENUM, S]},
           'struct': {'k': 'struct', 'of': {'x': D, 'e': ENUM}, 'optional': ['e']},
-          'struct-allopt': {'k': 'struct', 'of': {'x': D, 'n': I}}}
+          'struct-allopt': {'k': 'struct', 'of': {'x': D, 'n': I}},
+          # same members, different optional lists
+          'struct-xy-optx': {'k': 'struct', 'of': {'x': D, 'y': D}, 'optional': ['x']},
+          'struct-xy-mand': {'k': 'struct', 'of': {'x': D, 'y': D}, 'optional': []},
+          'limits': {'k': 'limits'}}
 PROBES = {'double': ['float', 'int', 'strab', 'none'], 'int': ['int', 'float', 'bool', 'strab'], 'bool': ['bool', 'int', 'strab'],
           'enum': ['smallint', "lit:'a'", "lit:'zz'", 'float'], 'scaled': ['int', 'float', 'strab'],
           'string': ["lit:''", "lit:'ab'", "lit:'abcd'", "lit:'\\xe9'", 'int'], 'blob': ["lit:''", "lit:'YWI='", "lit:'YWJjZA=='", 'int'],
@@ -31,6 +36,10 @@ ELEM_PROBE = {'int': 'int', 'enum': 'smallint'}
 
 def probes_for(shape):
     k = shape['k']
+    if k == 'struct' and 'y' in shape['of']:
+        return [['dict', {'x': 'float', 'y': 'float'}], ['dict', {'y': 'float'}], ['dict', {}]]
+    if k == 'limits':
+        return [['list', ['float', 'float']], ['list', ['float']], 'none']
     if k == 'tuple' and len(shape['of']) == 2:
         k = 'tuple2'
     out = []
@@ -52,18 +61,71 @@ def cases(tier):
              ('double', 'double'), ('double', 'int'), ('double', 'scaled0.1'), ('double', 'double-absres'),
              ('scaled0.1', 'double'), ('scaled0.1', 'scaled0.1'), ('scaled0.1', 'scaled3'), ('scaled3', 'scaled0.1'), ('scaled0.1', 'int'),
              ('bool', 'bool'), ('bool', 'int'), ('bool', 'enum'), ('bool', 'double'),
-             ('enum', 'enum'), ('enum', 'enum2'), ('enum2', 'enum'), ('enum', 'int'), ('enum', 'bool'),
+             ('enum', 'enum'), ('enum', 'enum2'), ('enum2', 'enum'), ('enum', 'int'), ('enum', 'bool'), ('int', 'enum3'), ('enum3', 'enum'),
+             ('bool', 'enum3'),
              ('string', 'string'), ('string', 'string-utf8'), ('string-utf8', 'string'), ('string', 'blob'),
              ('blob', 'blob'), ('blob', 'string'),
              ('array-int', 'array-int'), ('array-int', 'array-enum'), ('array-enum', 'array-int'), ('array-int', 'tuple'),
              ('tuple2', 'tuple2'), ('tuple', 'array-int'), ('struct', 'struct'), ('struct', 'struct-allopt'),
-             ('struct-allopt', 'struct'), ('struct', 'tuple')]
-    shapes = dict(SHAPES, enum2=ENUM2, tuple2={'k': 'tuple', 'of': [I, ENUM]})
+             ('struct-allopt', 'struct'), ('struct', 'tuple'),
+             ('struct-xy-optx', 'struct-xy-mand'), ('struct-xy-mand', 'struct-xy-optx'), ('struct-xy-optx', 'struct-xy-optx')]
+    shapes = dict(SHAPES, enum2=ENUM2, enum3=ENUM3, tuple2={'k': 'tuple', 'of': [I, ENUM]})
     for a, b in pairs:
         for i, pr in enumerate(probes_for(shapes[a])):
             out.append({'fn': 'run_compatible', 'id': f'compat/{a}->{b}/{i}',
                         'params': {'a': shapes[a], 'b': shapes[b], 'probe': pr, 'same': a == b}})
+    # a datatype is exported, then a nested member property changes, then it is exported / rebuilt / copied again
+    for layout in ('struct', 'array', 'tuple'):
+        for mutation in ('unit', 'limit', 'both'):
+            out.append({'fn': 'run_stale_export', 'id': f'export-mutate-export/{layout}/{mutation}', 'params': {'layout': layout, 'mutation': mutation}})
     return out
+
+
+def run_stale_export(env, p):
+    import frappy.datatypes as dt
+    from frappy.errors import BadValueError
+    K = 'C03/export-mutate-export/' + p['layout']
+    ramp = dt.ArrayOf(dt.FloatRange(0, 10, unit='$/min'), 0, 3)
+    inner = dt.StructOf(ramp=ramp, t=dt.FloatRange(0, 100, unit='$'))
+    d = {'struct': inner, 'array': dt.ArrayOf(inner, 0, 2), 'tuple': dt.TupleOf(inner, dt.IntRange(0, 5))}[p['layout']]
+    first = d.export_datatype()
+    hi = 10
+    if p['mutation'] in ('unit', 'both'):
+        d.set_main_unit('K')
+    if p['mutation'] in ('limit', 'both'):
+        hi = env.real('newmax', 1, 9)
+        ramp.setProperty('max', hi)       # forwarded to the element type
+    info = d.export_datatype()
+    if p['mutation'] in ('unit', 'both'):
+        env.check(not [u for u in _units(info) if '$' in u], K + '/main-unit-not-in-datainfo', _units(info))
+    rebuilt = dt.get_datatype(info)
+    cp = d.copy()
+    env.check(M.eq(cp.export_datatype(), info), K + '/datainfo-of-copy-differs')
+    env.check(M.eq(rebuilt.export_datatype(), info), K + '/datainfo-of-rebuilt-differs')
+    x = env.real('x', -1, 12)
+    member = {'ramp': [x], 't': 1.0}
+    value = {'struct': member, 'array': [member], 'tuple': [member, 1]}[p['layout']]
+
+    def ok(t):
+        try:
+            t.validate(t.import_value(value))
+            return True
+        except BadValueError:
+            return False
+    a, b, c = ok(d), ok(rebuilt), ok(cp)
+    env.check(a == b, K + '/rebuilt-accepts-differently', [a, b])
+    env.check(a == c, K + '/copy-accepts-differently', [a, c])
+    env.check(M.And(0 <= x, x <= hi + 2e-6) if a else M.Not(M.And(0 <= x, x <= hi - 2e-6)), K + '/original-ignores-its-own-limits', a)
+    for t in REQUIRED_TAGS:
+        env.note(t)
+
+
+def _units(x):
+    if isinstance(x, dict):
+        return [v for k, v in x.items() if k == 'unit' and isinstance(v, str)] + [u for v in x.values() for u in _units(v)]
+    if isinstance(x, (list, tuple)):
+        return [u for v in x for u in _units(v)]
+    return []
 
 
 def outcome(dt, cand):
@@ -87,7 +149,7 @@ def run_rebuild(env, p):
     from frappy.datatypes import get_datatype
     spec = M.build(env, p['shape'], 'd')
     d = spec.dt
-    K = f"C03/{p['how']}/{spec.kind}"
+    K = f"C03/{p['how']}/{'limits' if getattr(spec, 'limits', False) else spec.kind}"
     try:
         info = d.export_datatype()
         d2 = get_datatype(info, 'e') if p['how'] == 'rebuild' else d.copy()
@@ -131,6 +193,15 @@ def run_copy_isolated(env, p):
     K = f'C03/copy-isolated/{spec.kind}'
     info = d.export_datatype()
     c = d.copy()
+    # the exported description is a description, not a handle: changing it (or a type rebuilt from it) does not change the datatype
+    if spec.kind == 'struct' and isinstance(info.get('optional'), list):
+        from frappy.datatypes import get_datatype
+        before = list(d.optional)
+        rebuilt = get_datatype(info, 'r')
+        env.check(rebuilt.optional is not d.optional, K + '/optional-list-shared-with-rebuilt-type')
+        info['optional'].append('zz')
+        env.check(list(d.optional) == before, K + '/datatype-changed-through-its-exported-datainfo', [before, list(d.optional)])
+        info = d.export_datatype()
 
     def walk(a, b):
         """pairs of (original, copy) datatype nodes"""
@@ -205,7 +276,11 @@ def run_compatible(env, p):
             except Exception as e:
                 env.fail(K + '/b-validate-raises/' + type(e).__name__, repr(e))
                 return
-            env.check(ok, K + '/unsound-verdict')
+            sub = ''
+            if a.kind == b.kind == 'struct' and isinstance(oa[1], dict) and \
+                    (set(b.subs) - set(b.optional)) - set(oa[1]) and set(oa[1]) <= set(b.subs):
+                sub = '/member-optional-here-mandatory-there'     # (known finding, see known_findings.json)
+            env.check(ok, K + '/unsound-verdict' + sub)
     else:
         env.note('incompatible')
         nested = nested_sets(a, b)
